@@ -31,9 +31,9 @@ Section C03.
     cf r ov true = cf r' ov' true.
   Hypothesis Herr : forall r ov, f_spref (fx_fat (cf r ov false)) = SP_NONE.
 
-  Notation runC := (runX hstate compute true ims_on true true fix_clear true true sfilter parse_ims sanitize_ok prime
+  Notation runC := (runX hstate compute true ims_on true true fix_clear true true true sfilter parse_ims sanitize_ok prime
                          override negotiate vary_tuple vary_header clear_alias).
-  Notation runU := (runX hstate compute false ims_on true true fix_clear true true sfilter parse_ims sanitize_ok prime
+  Notation runU := (runX hstate compute false ims_on true true fix_clear true true true sfilter parse_ims sanitize_ok prime
                          override negotiate vary_tuple vary_header clear_alias).
 
   (** For every history (requests, page clears, clear-all, waits) started in any cache state satisfying the
@@ -90,6 +90,6 @@ Proof. exact qm_variant_refuted_w. Qed.
 (** non-vacuity: a history with a hit, a variant push and an override on the fixture satisfies the contract's
     conclusion on the repaired model *)
 Example c03_ex_repaired_override :
-  bodies (run_cfgx true (mkCfgX (cx_base w3_cx) [] 0 (cx_ovprime w3_cx) true true true true true) (w3_ops ++ w3_ops)) =
-  bodies (run_cfgx false (mkCfgX (cx_base w3_cx) [] 0 (cx_ovprime w3_cx) true true true true true) (w3_ops ++ w3_ops)).
+  bodies (run_cfgx true (mkCfgX (cx_base w3_cx) [] 0 (cx_ovprime w3_cx) true true true true true true) (w3_ops ++ w3_ops)) =
+  bodies (run_cfgx false (mkCfgX (cx_base w3_cx) [] 0 (cx_ovprime w3_cx) true true true true true true) (w3_ops ++ w3_ops)).
 Proof. vm_compute. reflexivity. Qed.
